@@ -1,10 +1,12 @@
 #!/bin/bash
 # matrix.sh <seeded-name> [...]: run every registered quick check against each seeded change, write
 # /verif/seeded/<name>/catch.txt (one line per check: id exit signatures)
-cd /verif
+VERIF="${VERIF:-$(cd "$(dirname "$0")/.." && pwd)}"
+OUT="${MATRIX_OUT:-$VERIF/seeded}"
+cd "$VERIF"
 IDS=$(python3 -c "import json;print(' '.join(c['property_id'] for c in json.load(open('MANIFEST.json'))['checks']))")
 for n in "$@"; do
-  out=$(tools/sens.sh /verif/seeded/$n/patch.diff $IDS 2>&1)
-  echo "$out" > /verif/seeded/$n/catch.txt
+  out=$(tools/sens.sh "$VERIF/seeded/$n/patch.diff" $IDS 2>&1)
+  echo "$out" > "$OUT/$n/catch.txt"
   echo "== $n: caught by: $(echo "$out" | grep 'exit=1' | cut -d' ' -f1 | tr '\n' ' ')"
 done
